@@ -1,8 +1,113 @@
-import GV.Orch.Spec
+/-
+  C04 — Sort model: strict priority order, exactly once, and the documented error policy.
+
+  `Execute`, `ExecuteSelectedRules`, `ExecuteSelectedRulesWithControl`: the skeleton extracted
+  from engine/gengine.go (GV.Generated.Orch, regenerated on every run) is an instance of the
+  sorted-family template, and the template conforms to the reference semantics `spec`
+  for every configuration: every rule set, every outcome assignment, both policies.
+-/
+import GV.Orch.FamSort
 import GV.Generated.Orch
 namespace GV.Props.C04
-open GV.Orch
+open GV.Orch GV.Generated.Orch
 
-theorem placeholder : takeThrough (fun (x : Nat) => x == 2) [1, 2, 3] = [1, 2] := by decide
+def stdArm : Arm := ⟨.collect, .cont, .retErr, .cont⟩
+def collectArm : Arm := ⟨.collect, .cont, .collect, .cont⟩
+
+theorem stdArm_strict (b : Bool) : stdArm.Strict b := by
+  cases b <;> simp [Arm.Strict, Arm.Regular, Arm.act, stdArm]
+theorem collectArm_strict (b : Bool) : collectArm.Strict b := by
+  cases b <;> simp [Arm.Strict, Arm.Regular, Arm.act, collectArm]
+theorem stdArm_halts (b : Bool) : stdArm.halts b = !b := by cases b <;> rfl
+theorem collectArm_halts (b : Bool) : collectArm.halts b = false := by cases b <;> rfl
+
+/-! ### T1 obligations: the extracted skeletons are instances of the template -/
+
+theorem Execute_shape : Execute = sortT .sortRules false false stdArm false := rfl
+theorem ExecuteSelectedRules_shape : ExecuteSelectedRules = sortT .entities true true collectArm false := rfl
+theorem ExecuteSelectedRulesWithControl_shape :
+    ExecuteSelectedRulesWithControl = sortT .sortRules true true stdArm false := rfl
+
+/-! ### Conformance to the reference semantics, for every configuration -/
+
+theorem C04_Execute : Conforms Execute .Execute := by
+  intro cfg hp
+  rw [Execute_shape, sortT_obs cfg hp _ (by decide) _ _ _ _ (stdArm_strict _), expectObs_eq _ _ hp.flag]
+  simp only [spec, hp.rb, Bool.false_eq_true, ite_false, srcList, initSt, sortOrder, stdArm_halts, sortFamily]
+  cases h : cfg.sorted.isEmpty <;> simp [h]
+
+theorem C04_ExecuteSelectedRulesWithControl :
+    Conforms ExecuteSelectedRulesWithControl .ExecuteSelectedRulesWithControl := by
+  intro cfg hp
+  rw [ExecuteSelectedRulesWithControl_shape, sortT_obs cfg hp _ (by decide) _ _ _ _ (stdArm_strict _),
+    expectObs_eq _ _ hp.flag]
+  simp only [spec, hp.rb, Bool.false_eq_true, ite_false, srcList, initSt, sortOrder, stdArm_halts, sortFamily,
+    ite_true]
+  cases h : cfg.sorted.isEmpty <;> cases h2 : (selected cfg).isEmpty <;> simp [h, h2]
+
+theorem C04_ExecuteSelectedRules : Conforms ExecuteSelectedRules .ExecuteSelectedRules := by
+  intro cfg hp
+  rw [ExecuteSelectedRules_shape, sortT_obs cfg hp _ (by decide) _ _ _ _ (collectArm_strict _),
+    expectObs_eq _ _ hp.flag]
+  simp only [spec, hp.rb, Bool.false_eq_true, ite_false, srcList, initSt, sortOrder, collectArm_halts, sortFamily,
+    ite_true, Bool.not_true]
+  cases h : cfg.entities.isEmpty <;> cases h2 : (selected cfg).isEmpty <;> simp [h, h2]
+
+/-! ### The clauses of the property, read off the reference semantics -/
+
+/-- Selection sorts by non-increasing salience and keeps exactly the selected rules. -/
+theorem sortDesc_sorted (l : List Rule) : (sortDesc l).Pairwise (fun a b => a.sal ≥ b.sal) := by
+  have h := List.pairwise_mergeSort (le := fun (a b : Rule) => decide (a.sal ≥ b.sal))
+    (by intro a b c; simp; omega) (by intro a b; simp; omega) l
+  simpa [sortDesc] using h
+
+theorem sortDesc_perm (l : List Rule) : (sortDesc l).Perm l := List.mergeSort_perm _ _
+
+theorem takeThrough_prefix (p : α → Bool) (l : List α) : takeThrough p l <+: l := by
+  induction l with
+  | nil => simp [takeThrough]
+  | cons a l ih =>
+    unfold takeThrough
+    split
+    · exact ⟨l, rfl⟩
+    · obtain ⟨t, ht⟩ := ih; exact ⟨t, by simp [ht]⟩
+
+theorem takeThrough_all (p : α → Bool) (l : List α) (h : ∀ x ∈ l, p x = false) : takeThrough p l = l := by
+  induction l with
+  | nil => rfl
+  | cons a l ih =>
+    have := h a (by simp)
+    simp [takeThrough, this]
+    exact ih (fun x hx => h x (by simp [hx]))
+
+/-- continue-on-error: every rule runs, in order. -/
+theorem continue_runs_all (cfg : Cfg) (order : List Rule) :
+    (sortFamily cfg order true false).flatten = order := by
+  simp [sortFamily, seqStop, takeThrough_all]
+
+/-- stop-on-error: the run is the prefix of the order ending at the first failing rule. -/
+theorem stop_at_first_failure (cfg : Cfg) (order : List Rule) :
+    (sortFamily cfg order false false).flatten = takeThrough (fails cfg) order := by
+  simp [sortFamily]
+  congr 1
+  funext r; simp [seqStop]
+
+/-- In both policies the executed rules are a prefix of the order: no rule runs twice, none
+    runs out of order, and (prefix of a sorted list) saliences are non-increasing. -/
+theorem trace_prefix (cfg : Cfg) (order : List Rule) (b s : Bool) :
+    (sortFamily cfg order b s).flatten <+: order := by
+  simp [sortFamily]; exact takeThrough_prefix _ _
+
+theorem trace_sorted (cfg : Cfg) (order : List Rule) (b s : Bool)
+    (h : order.Pairwise (fun a b => a.sal ≥ b.sal)) :
+    ((sortFamily cfg order b s).flatten).Pairwise (fun a b => a.sal ≥ b.sal) :=
+  h.sublist (trace_prefix cfg order b s).sublist
+
+/-- Non-vacuity: a concrete three-rule configuration satisfies `Pre`. -/
+example : Pre { sorted := [⟨"a", 3⟩, ⟨"b", 3⟩, ⟨"c", -1⟩], entities := [⟨"c", -1⟩, ⟨"a", 3⟩, ⟨"b", 3⟩],
+                out := fun n => if n = "b" then ⟨false, none, true, false⟩ else ⟨true, some 1, false, false⟩ } := by
+  refine ⟨rfl, rfl, ?_, ?_⟩
+  · intro n; simp; split <;> simp
+  · decide
 
 end GV.Props.C04
